@@ -514,6 +514,16 @@ def gen_cases(rng, tier, chk):
     for p in (2, 3, 13, 23, 29, 73, 97, 101, 1009, 32749, 32771, 65521, 65537):
         facs.append(({p: 1}, "prime"))
         facs.append(({p: 2}, "prime power"))
+    # every prime of the two primorials alone, squared, with a large cofactor, and every pair of them (order of the cascades)
+    for i, p in enumerate(SMALLP[:25]):
+        facs.append(({p: 1, 10007: 1}, "primorial prime * 10007"))
+        facs.append(({p: 3}, "primorial prime cubed"))
+        for q in SMALLP[i + 1:25]:
+            f = {p: 1, q: 1}
+            n = p * q
+            add("factor", [n], "factor1", f, "pair of primorial primes")
+            add(rng.choice(["iffactorprime", "primefactor"]), [n], "factor1", f, "pair of primorial primes")
+            add(rng.choice(["set2.vec", "set2.list", "set1.vec", "write", "divisors.n"]), [n], "set", f, "pair of primorial primes")
     facs.append(({}, "n=1"))
     if thorough:
         for k in range(12):
